@@ -252,3 +252,137 @@ Proof.
     destruct a; try (apply G; exact H); destruct b; try (apply G; exact H).
   inversion H; subst. cbn. lia.
 Qed.
+
+(* ------------------------------------------------------------------ *)
+(* T2: whole expressions of the arithmetic fragment *)
+Definition a_all := fix all (l : list pexpr) : bool := match l with [] => true | x :: r => arith_only x && all r end.
+Definition l_mx (c : cenv) := fix mx (l : list pexpr) : Z := match l with [] => 0 | x :: r => Z.max (leaf_bits c x) (mx r) end.
+Definition n_sizes := fix sizes (l : list pexpr) : nat := match l with [] => O | x :: r => (esize x + sizes r)%nat end.
+
+Lemma un_step_bits op v r : un_step op v = CVal r -> bits r <= Z.max 1 (bits v).
+Proof.
+  destruct op; cbn [un_step]; intro H.
+  - inversion H; subst. lia.
+  - apply lift_val in H. unfold py_un in H. destruct v; cbn [as_num] in H; try discriminate; inversion H; subst; cbn.
+    + rewrite Z.abs_opp. lia.
+    + destruct b; cbn; lia.
+    + lia.
+  - inversion H; subst. cbn. lia.
+  - discriminate.
+Qed.
+
+Lemma c_chain_bits c rs : forall left ops v, c_chain c left ops rs = CVal v -> bits v = 1.
+Proof.
+  induction rs as [|r rs IH]; intros left ops v H; cbn [c_chain] in H.
+  - inversion H; reflexivity.
+  - destruct ops as [|op ops]; [inversion H; reflexivity|].
+    apply bindC_val in H as [rv [_ H]]. apply bindC_val in H as [b [_ H]].
+    destruct b; [exact (IH _ _ _ H)|inversion H; reflexivity].
+Qed.
+
+Section Bound.
+  Variable c : cenv.
+  Definition bd_at (e : pexpr) : Prop := forall v, arith_only e = true -> eval_const c e = CVal v ->
+    bits v <= Z.max fold_max_bits (leaf_bits c e) + Z.of_nat (esize e).
+
+  Lemma bd_evand l : Forall bd_at l -> a_all l = true -> forall r0 v, c_evand c l r0 = CVal v ->
+    bits v <= Z.max (bits r0) (Z.max fold_max_bits (l_mx c l) + Z.of_nat (n_sizes l)).
+  Proof.
+    induction 1 as [|x r Hx Hr IH]; cbn [a_all c_evand l_mx n_sizes]; intros A r0 v H.
+    - inversion H; subst. lia.
+    - apply andb_true_iff in A as [Ax Ar]. destruct (truthy r0).
+      + apply bindC_val in H as [vx [Ex H]]. specialize (Hx vx Ax Ex). specialize (IH Ar vx v H). lia.
+      + specialize (IH Ar r0 v H). lia.
+  Qed.
+  Lemma bd_evor l : Forall bd_at l -> a_all l = true -> forall r0 v, c_evor c l r0 = CVal v ->
+    bits v <= Z.max (bits r0) (Z.max fold_max_bits (l_mx c l) + Z.of_nat (n_sizes l)).
+  Proof.
+    induction 1 as [|x r Hx Hr IH]; cbn [a_all c_evor l_mx n_sizes]; intros A r0 v H.
+    - inversion H; subst. lia.
+    - apply andb_true_iff in A as [Ax Ar]. destruct (truthy r0).
+      + specialize (IH Ar r0 v H). lia.
+      + apply bindC_val in H as [vx [Ex H]]. specialize (Hx vx Ax Ex). specialize (IH Ar vx v H). lia.
+  Qed.
+
+  Lemma bd_all : forall e, bd_at e.
+  Proof.
+    pose proof fold_max_pos as M1.
+    induction e using pexpr_ind2; unfold bd_at in *; intros v A E; try discriminate.
+    - (* EInt *) inversion E; subst. cbn [leaf_bits esize]. lia.
+    - (* EBool *) inversion E; subst. cbn. lia.
+    - (* EName *) cbn [eval_const leaf_bits] in *. destruct (tlookup x c) as [[w|]|]; try discriminate.
+      destruct (is_scalar w); [|discriminate]. inversion E; subst. lia.
+    - (* EBin *) rewrite ec_bin in E. destruct (in_bin op); [|discriminate].
+      change (arith_only (EBin op e1 e2)) with (arith_only e1 && arith_only e2) in A.
+      apply andb_true_iff in A as [A1 A2].
+      apply bindC_val in E as [x [Ex E]]. apply bindC_val in E as [y [Ey E]].
+      specialize (IHe1 x A1 Ex). specialize (IHe2 y A2 Ey). pose proof (fold_step_bounded _ _ _ _ E) as St.
+      change (leaf_bits c (EBin op e1 e2)) with (Z.max (leaf_bits c e1) (leaf_bits c e2)).
+      change (esize (EBin op e1 e2)) with (Datatypes.S (esize e1 + esize e2)%nat). lia.
+    - (* EUn *) rewrite ec_un in E. destruct (in_un op); [|discriminate].
+      change (arith_only (EUn op e)) with (arith_only e) in A.
+      apply bindC_val in E as [x [Ex E]]. specialize (IHe x A Ex). pose proof (un_step_bits _ _ _ E) as St.
+      change (leaf_bits c (EUn op e)) with (leaf_bits c e). change (esize (EUn op e)) with (Datatypes.S (esize e)). lia.
+    - (* EBoolOp *) change (arith_only (EBoolOp op vs)) with (a_all vs) in A.
+      change (leaf_bits c (EBoolOp op vs)) with (l_mx c vs). change (esize (EBoolOp op vs)) with (Datatypes.S (n_sizes vs)).
+      destruct op; [rewrite ec_and in E; pose proof (bd_evand vs H A _ _ E) as St|rewrite ec_or in E; pose proof (bd_evor vs H A _ _ E) as St];
+        cbn [bits] in St; lia.
+    - (* ECompare *) rewrite ec_cmp in E. destruct ops; [discriminate|].
+      apply bindC_val in E as [lv [_ E]]. rewrite (c_chain_bits _ _ _ _ _ E).
+      pose proof (Zle_0_nat (esize (ECompare e (c0 :: ops) rs))). lia.
+    - (* EIfExp *) rewrite ec_if in E.
+      change (arith_only (EIfExp e1 e2 e3)) with (arith_only e1 && arith_only e2 && arith_only e3) in A.
+      apply andb_true_iff in A as [A12 A3]. apply andb_true_iff in A12 as [A1 A2].
+      apply bindC_val in E as [cv [_ E]].
+      change (leaf_bits c (EIfExp e1 e2 e3)) with (Z.max (leaf_bits c e1) (Z.max (leaf_bits c e2) (leaf_bits c e3))).
+      change (esize (EIfExp e1 e2 e3)) with (Datatypes.S (esize e1 + esize e2 + esize e3)%nat).
+      destruct (truthy cv); [specialize (IHe2 v A2 E)|specialize (IHe3 v A3 E)]; lia.
+  Qed.
+End Bound.
+
+Theorem fold_bits_bounded_arith : forall c e v, arith_only e = true -> eval_const c e = CVal v ->
+  bits v <= Z.max fold_max_bits (leaf_bits c e) + Z.of_nat (esize e).
+Proof. intros c e v. apply bd_all. Qed.
+
+(* T3: the former witness family 2 ** (2 ** n) is refused as soon as its value would exceed the bound *)
+Theorem tower_refused : forall n, 0 <= n -> fold_max_bits < 2 * 2 ^ n -> eval_const [] (tower n) = CFail KValue.
+Proof.
+  intros n Hn Hb. unfold tower. rewrite !ec_bin.
+  change (in_bin Pow) with true. cbv iota.
+  change (eval_const [] (EInt 2)) with (@CVal pval (VInt 2)).
+  change (eval_const [] (EInt n)) with (@CVal pval (VInt n)).
+  cbn [bindC].
+  assert (BL : bit_length 2 = 2) by reflexivity.
+  destruct (apply_bin Pow (VInt 2) (VInt n)) as [w|k|] eqn:E1.
+  - cbn [bindC].
+    unfold apply_bin in E1. cbn [is_numv andb] in E1.
+    destruct (too_large Pow (VInt 2) (VInt n)); [discriminate|].
+    apply lift_val in E1. cbn in E1. unfold int_pow in E1.
+    assert (L : (0 <=? n) = true) by (apply Z.leb_le; exact Hn). rewrite L in E1. inversion E1; subst.
+    unfold apply_bin. cbn [is_numv andb].
+    assert (T : too_large Pow (VInt 2) (VInt (2 ^ n)) = true).
+    { unfold too_large. cbn [is_intlike fold_bits]. rewrite BL.
+      assert (P : 0 < 2 ^ n) by (apply Z.pow_pos_nonneg; lia).
+      assert (Q : (0 <? 2 ^ n) = true) by (apply Z.ltb_lt; exact P). rewrite Q. apply Z.ltb_lt. lia. }
+    rewrite T. reflexivity.
+  - cbn [bindC]. unfold apply_bin in E1. cbn [is_numv andb] in E1.
+    destruct (too_large Pow (VInt 2) (VInt n)); [inversion E1; reflexivity|].
+    cbn in E1. unfold int_pow in E1.
+    assert (L : (0 <=? n) = true) by (apply Z.leb_le; exact Hn). rewrite L in E1. discriminate.
+  - unfold apply_bin in E1. cbn [is_numv andb] in E1.
+    destruct (too_large Pow (VInt 2) (VInt n)); [discriminate|].
+    cbn in E1. unfold int_pow in E1.
+    assert (L : (0 <=? n) = true) by (apply Z.leb_le; exact Hn). rewrite L in E1. discriminate.
+Qed.
+
+(* non-vacuity: values below the bound are still folded, the boundary is where the source puts it *)
+Example fold_bound_examples :
+  eval_const [] (tower 3) = CVal (VInt 256) /\
+  eval_const [] (tower (Z.log2 fold_max_bits)) = CFail KValue /\
+  eval_const [] (EBin LShift (EInt 1) (EInt (fold_max_bits - 1))) = CVal (VInt (2 ^ (fold_max_bits - 1))) /\
+  eval_const [] (EBin LShift (EInt 1) (EInt fold_max_bits)) = CFail KValue /\
+  eval_const [] (EBin Mult (EInt (2 ^ fold_max_bits)) (EInt 2)) = CFail KValue /\
+  eval_const [] (EBin Pow (EInt 9) (EBin Pow (EInt 9) (EInt 9))) = CFail KValue /\
+  arith_only (EBin Add (EName [120]) (EBin Mult (EInt 3) (EInt 5))) = true /\
+  bits (VInt 255) = 8 /\ bits (VInt (-256)) = 9.
+Proof. vm_compute. repeat split; reflexivity. Qed.
